@@ -97,6 +97,8 @@ class GrounderHelper:
         self._grounded_actions: Dict[
             Tuple[str, Tuple[FNode, ...]], Optional[Action]
         ] = {}
+        # names already given to a grounded action; see ground_action
+        self._grounded_names: Set[str] = set()
         env = problem.environment
         if prune_actions:
             self._simplifier = Simplifier(env, problem)
@@ -152,6 +154,16 @@ class GrounderHelper:
                 new_action = create_action_with_given_subs(
                     self._problem, action, self._simplifier, subs
                 )
+                if new_action is not None:
+                    # "_"-joined names are ambiguous: move(a_b, c) and move(a, b_c) are both
+                    # named move_a_b_c; the name is changed only in case of such a clash
+                    base_name, count = new_action.name, 0
+                    while new_action.name in self._grounded_names or (
+                        count > 0 and self._problem.has_name(new_action.name)
+                    ):
+                        new_action.name = f"{base_name}_{count}"
+                        count += 1
+                    self._grounded_names.add(new_action.name)
             self._grounded_actions[key] = new_action
             return new_action
 
